@@ -5,6 +5,7 @@ uint64_t h_rng_state = 88172645463325252ULL;
 unsigned h_shard = 0, h_nshards = 1;
 uint64_t h_case_no = 0;
 int h_thorough = 0;
+int h_exhaustive = 0;     /* thorough tier proper (not the widened search of a quick run): complete enumerations that take minutes */
 uint64_t h_seed = 0;
 char h_current_case[8192];
 
@@ -56,7 +57,8 @@ int main(int argc, char **argv) {
     setvbuf(stdout, NULL, _IOFBF, 1 << 16);
     if (argc < 2) { fprintf(stderr, "usage: %s <domain> [quick|thorough] [shard nshards] | replay <line>\n", argv[0]); return 2; }
     dom = argv[1];
-    if (argc > 2 && strcmp(argv[2], "thorough") == 0) h_thorough = 1;
+    if (argc > 2 && strcmp(argv[2], "thorough") == 0) h_thorough = h_exhaustive = 1;
+    if (argc > 2 && strcmp(argv[2], "widened") == 0) h_thorough = 1;
     if (argc > 4) { h_shard = (unsigned) atoi(argv[3]); h_nshards = (unsigned) atoi(argv[4]); if (!h_nshards) h_nshards = 1; }
     h_seed = seed ? strtoull(seed, NULL, 10) : 1;
     h_rng_state = (h_seed + 1) * 0x9E3779B97F4A7C15ULL ^ 0xD1B54A32D192ED03ULL;
